@@ -142,5 +142,5 @@ def cases(draw):
 
 
 PARTS = [
-    Part("templates", check, strategy=lambda ctx: cases(), budget={"quick": 600, "thorough": 8000}),
+    Part("templates", check, strategy=lambda ctx: cases(), budget={"quick": 2500, "thorough": 8000}),
 ]
